@@ -2,6 +2,7 @@ pub mod alloc;
 pub mod corpus;
 pub mod dynmap;
 pub mod dynshape;
+pub mod fuzzsupport;
 pub mod gen;
 pub mod guard;
 pub mod iodoubles;
